@@ -388,6 +388,36 @@ def m_option_map(eng, st, callee, a, ty):
     return out
 
 
+_INT_W = {"u8": 8, "u16": 16, "u32": 32, "u64": 64, "usize": 64, "u128": 128,
+          "i8": 8, "i16": 16, "i32": 32, "i64": 64, "isize": 64, "i128": 128}
+
+
+@model(r"^<(\w+) as TryFrom<(\w+)>>::try_from$|^<(\w+) as TryInto<(\w+)>>::try_into$")
+def m_int_try_from(eng, st, callee, a, ty):
+    """checked integer conversion: Ok(value) iff it fits the target type"""
+    m = re.match(r"^<(\w+) as TryFrom<(\w+)>>::try_from$", callee)
+    if m:
+        dst, src = m.group(1), m.group(2)
+    else:
+        m = re.match(r"^<(\w+) as TryInto<(\w+)>>::try_into$", callee)
+        src, dst = m.group(1), m.group(2)
+    if src not in _INT_W or dst not in _INT_W:
+        raise Unknown("integer conversion " + callee)
+    x = a[0]
+    ws, wd = _INT_W[src], _INT_W[dst]
+    s_signed, d_signed = src.startswith("i"), dst.startswith("i")
+    wide = max(ws, wd) + 1
+    xv = z3.SignExt(wide - ws, x) if s_signed else z3.ZeroExt(wide - ws, x)
+    lo = -(1 << (wd - 1)) if d_signed else 0
+    hi = (1 << (wd - 1)) - 1 if d_signed else (1 << wd) - 1
+    fits = z3.And(xv >= z3.BitVecVal(lo, wide), xv <= z3.BitVecVal(hi, wide))
+    res = z3.Extract(wd - 1, 0, xv) if wd < wide else xv
+    out = []
+    for s2, ok in fork_on(eng, st, fits):
+        out.append((mk_ok(z3.simplify(res)) if ok else mk_err(Opaque("TryFromIntError")), None, s2))
+    return out
+
+
 @model(r"^NonZero::<\w+>::get$")
 def m_nonzero_get(eng, st, callee, a, ty):
     return one(a[0])
